@@ -3,6 +3,81 @@ def _nontrivial(rec):
     return rec["model"].startswith("ok ")
 
 
+import json
+import os
+import time
+
+
+def _release_round(pid, cfg, tier, seed):
+    """Second profile: the same harness built in release (overflow checks OFF, debug assertions OFF) runs the corpus and the
+    same seeded cases; its observations are judged by the same extracted judge and compared exactly with the model.  Wrap-around /
+    truncation that the dev profile turns into a panic can only show here.  Returns (violations, stats)."""
+    import glob
+    import verif_lib as V
+    os.makedirs(os.path.join(V.RUN, pid), exist_ok=True)
+    log = open(os.path.join(V.RUN, pid, "%s-release.log" % tier), "w")
+    with V.BuildLock("cargo"):
+        rc, out = V.sh("timeout 3000 cargo build --offline --release --bin c14 2>&1", cwd=V.HARNESS, timeout=3100)
+    log.write("== cargo build --release --bin c14 (rc=%d)\n%s\n" % (rc, out[-3000:]))
+    if rc != 0:
+        return ["the release-profile harness no longer builds against /repo/rust"], [], {}
+    hx = os.path.join(V.HARNESS, "target", "release", "c14")
+    dx = V.driver_exe(cfg, pid)
+    env = dict(V.ENV); env["VERIF_SEED"] = str(seed); env["VERIF_TIER"] = tier
+    known = {k["class"] for k in V.load_known() if k.get("property") == pid and k.get("status") == "known"}
+    recs = []
+    rounds = [("gen", None)] + [("run", cf) for cf in sorted(glob.glob(os.path.join(V.ROOT, "corpus", pid, "*.case")))]
+    for mode, cf in rounds:
+        d = os.path.join(V.RUN, pid, tier, "release-" + (os.path.basename(cf) if cf else "gen"))
+        os.makedirs(d, exist_ok=True)
+        if mode == "gen":
+            rc, out = V.sh("%s gen %s" % (hx, d), cwd=V.ROOT, timeout=1500, env=env)
+        else:
+            V.sh("cp %s %s/cases.txt" % (cf, d))
+            rc, out = V.sh("%s run %s/cases.txt %s/impl.txt" % (hx, d, d), cwd=V.ROOT, timeout=1500, env=env)
+        if rc != 0:
+            return ["release harness exited with %d: %s" % (rc, out[-300:])], [], {}
+        rc, out = V.sh("ulimit -s unlimited 2>/dev/null; %s %s/cases.txt %s/impl.txt > %s/model.txt" % (dx, d, d, d), cwd=V.ROOT, timeout=1500, env=env)
+        if rc != 0:
+            return ["model driver exited with %d on the release observations" % rc], [], {}
+        cases, order = V.read_lines(os.path.join(d, "cases.txt"))
+        impl, _ = V.read_lines(os.path.join(d, "impl.txt"))
+        model, _ = V.read_lines(os.path.join(d, "model.txt"))
+        for idx in order:
+            m, _, v = model.get(idx, "driver-missing\tna").partition("\t")
+            recs.append({"idx": idx, "case": cases[idx], "impl": impl.get(idx, "harness-missing"), "model": m.strip(),
+                         "verdict": v.strip() or "na", "src": "release:" + (os.path.basename(cf) if cf else "gen:%s" % seed)})
+    bad = [r for r in recs if (r["verdict"].startswith("fails") and (r["verdict"].partition(":")[2] or "-") not in known)]
+    dis = [r for r in recs if not V.agree(cfg, r)]
+    log.write("release: %d cases, %d spec failures, %d disagreements\n" % (len(recs), len(bad), len(dis)))
+    log.close()
+    return [], bad + [r for r in dis if r not in bad], {"release_evaluations": len(recs), "release_spec_failures": len(bad), "release_disagreements": len(dis)}
+
+
+def _custom_check(pid, cfg, tier, seed):
+    import verif_lib as V
+    t0 = time.time()
+    rc = V.check(pid, cfg, tier, seed)              # dev profile (overflow checks on): proofs + correspondence + evidence
+    breaks, bad, stats = _release_round(pid, cfg, tier, seed)
+    evp = os.path.join(V.EVID, "%s.json" % pid)
+    ev = json.load(open(evp))
+    ev["coverage"].update(stats)
+    ev["coverage"]["profiles"] = ["dev (overflow-checks, debug-assertions)", "release (no overflow checks)"]
+    if breaks or bad:
+        hdr = ["RELEASE PROFILE (overflow checks off): " + b for b in breaks]
+        if bad:
+            hdr.append("release-profile harness: property fails / model disagrees on %d cases (first ones below)" % len(bad))
+        path = V.write_replay(pid, seed, "release-fail", bad[:5], hdr)
+        print("VIOLATION property=%s replay=%s%s" % (pid, path, "" if bad else " no-failing-input-found"))
+        ev["violations"] = 1
+        rc = 1
+    ev["wall_s"] = round(time.time() - t0, 1)
+    json.dump(ev, open(evp, "w"), indent=1)
+    print("%s %s seed=%s release profile: cases %s, spec failures %s, disagreements %s"
+          % (pid, tier, seed, stats.get("release_evaluations", 0), stats.get("release_spec_failures", "-"), stats.get("release_disagreements", "-")))
+    return rc
+
+
 # Switches that follow /repo (all in coq/Num/IntRange.v / Value.v; the *_legacy / *_gen variants keep the old behaviour
 # for the refutation theorems):
 #   json_min_fixed   := true   /repo eac05aa (C17)  metadata encode_number uses unsigned_abs
@@ -27,12 +102,13 @@ CFG = {
     "theorems": ["C14_checked_ops_exact", "C14_div_floor_zero_refuted", "C14_int_range_invariant", "C14_mint_builder_invariant",
                  "C14_int_range_refuted_before_repair", "C14_int_cbor_roundtrip", "C14_int_cast_argument",
                  "C14_int_min_panic_refuted_before_repair", "C14_int_decimal_roundtrip", "C14_int_from_str_refuted_before_repair",
-                 "C14_int_accessors_exact", "C14_int_as_negative_refuted", "C14_bigint_cbor_roundtrip", "C14_decimal_roundtrip",
+                 "C14_int_accessors_exact", "C14_int_as_negative_refuted", "C14_mint_as_multiasset_exact", "C14_mint_as_multiasset_refuted", "C14_bigint_cbor_roundtrip", "C14_decimal_roundtrip", "C14_from_str_canonical",
                  "C14_value_add_exact_or_error", "C14_value_sub_exact_or_error", "C14_value_sub_refuted_before_repair",
                  "C14_value_clamped_sub_spec", "C14_value_add_comm", "C14_value_add_assoc", "C14_sub_undoes_add",
                  "C14_compare_componentwise", "C14_value_eq_sound", "C14_judge_accepts_model"],
     "allowed_axioms": [],
     "compare": "exact",
+    "custom_check": _custom_check,
     "nontrivial": _nontrivial,
     "gen_timeout": 1500,
     "rule": "cases: BigNum ops on the 12x12 grid of {0,1,2,2^32-1,2^32,2^63-1,2^63,2^63+1,2^64-2,2^64-1,...} plus operand pairs placed at the "
@@ -54,9 +130,9 @@ CFG = {
     "assumptions": [
         "value_wf: sorted distinct keys and quantities < 2^64 (what BTreeMap<_, BigNum> guarantees); asset names <= 32 bytes and 28-byte policy ids in the correspondence run",
         "arguments respect their Rust types (u64, i32); amounts handed to the MintBuilder are themselves obtainable Ints",
-        "known classes: C14-div-by-zero-panic (divisor = 0), C14-int-as-negative-truncates (the Int is -2^64)",
+        "known classes: C14-div-by-zero-panic (divisor = 0), C14-int-as-negative-truncates (the Int is -2^64), C14-mint-duplicate-policy-dropped (a policy id occurs in two entries of a Mint)",
         "native-only conversions that bypass the wasm API (impl From<Vec<i128>> for CostModel) are not an Int source here",
-        "dev profile (overflow checks on); the release-profile behaviour of the former casts is covered by theorem C14_int_cast_argument, not by a second binary",
+        "two harness profiles are run on the same cases: dev (overflow checks on) and release (overflow checks off); both must agree exactly with the model",
     ],
     "explanation": "Theorems quantify over all operands, texts, byte strings, integers of any size, API histories and value bundles; the correspondence "
                    "run ties the Gallina models to the compiled library on seeded boundary-biased cases with exact comparison of canonical observations; "
